@@ -80,6 +80,20 @@ func genConc(r *core.Rand, tier string) Plan {
 		p.Clients[i].Steps = append(p.Clients[i].Steps, s)
 		left[i]--
 	}
+	if r.Chance(0.5) {
+		// pauses inside the registry's code (outside its critical sections):
+		// calls of different clients overlap for real
+		n := core.Choice(r, []int{7, 13, 29, 53})
+		dens := core.Choice(r, []float64{0.05, 0.15, 0.4})
+		hi := core.Choice(r, []int{1, 3, 50, 4000})
+		p.Yield = make([]int, n)
+		for i := range p.Yield {
+			if r.Chance(dens) {
+				p.Yield[i] = 1 + r.Intn(hi)
+			}
+		}
+		p.Yield[r.Intn(n)] = 1 + r.Intn(hi)
+	}
 	return p
 }
 
